@@ -354,7 +354,7 @@ def l_c15_triples(refs: list):
 
 # ---- C16: bulk -------------------------------------------------------------------------------------
 @lemma("C16.pd_elementwise", props=["C16"], bounded_only="pandas Series.map (third-party)")
-def l_c16_pd(conv: Converter, cells: list, op: str, strict: bool, passthrough: bool, ambiguous: bool, target: bool):
+def l_c16_pd(conv: Converter, cells: list, op: str, strict: bool, passthrough: bool, ambiguous: bool, target: bool, labels: tuple):
     import pandas as pd
     requires(WF(conv))
     scalar = {
@@ -362,10 +362,15 @@ def l_c16_pd(conv: Converter, cells: list, op: str, strict: bool, passthrough: b
         "expand": conv.expand_or_standardize if ambiguous else conv.expand,
         "standardize_prefix": conv.standardize_prefix, "standardize_curie": conv.standardize_curie, "standardize_uri": conv.standardize_uri,
     }[op]
-    df = pd.DataFrame({"x": list(cells), "other": [c + "!" for c in cells]})
-    kw = dict(column="x", strict=strict, passthrough=passthrough)
+    # column labels: strings, or the integers of a header-less frame (0 is a valid, falsy label)
+    src, tgt, oth = labels
+    cols = {src: list(cells), oth: [c + "!" for c in cells]}
     if target:
-        kw["target_column"] = "y"
+        cols[tgt] = ["old"] * len(cells)
+    df = pd.DataFrame(cols)
+    kw = dict(column=src, strict=strict, passthrough=passthrough)
+    if target:
+        kw["target_column"] = tgt
     if op in ("compress", "expand"):
         kw["ambiguous"] = ambiguous
     try:
@@ -380,11 +385,11 @@ def l_c16_pd(conv: Converter, cells: list, op: str, strict: bool, passthrough: b
         raised = True
     assert raised == failed
     if not raised:
-        out = df["y" if target else "x"]
+        out = df[tgt if target else src]
         assert [None if pd.isna(v) else v for v in out] == expected
-        assert list(df["other"]) == [c + "!" for c in cells]
+        assert list(df[oth]) == [c + "!" for c in cells]
         if target:
-            assert list(df["x"]) == list(cells)
+            assert list(df[src]) == list(cells)
 
 
 @lemma("C16.file_elementwise_atomic", props=["C16"], bounded_only="csv + file system (third-party); atomicity observed on the bytes on disk")
